@@ -313,18 +313,78 @@ impl Family for Small {
     }
 }
 
+/// output staging thresholds below 2^24: cells of 2^15..2^20 bytes, alone and after many small rows
+struct MidSizes;
+const MID: [usize; 14] = [32_767, 32_768, 40_000, 65_400, 65_535, 65_536, 70_001, 98_304, 100_000, 131_072, 140_000, 200_000, 1_048_576, 1_048_577];
+impl Family for MidSizes {
+    fn name(&self) -> String {
+        "mid-size-cells".into()
+    }
+    fn len(&self) -> u64 {
+        (MID.len() * 3) as u64
+    }
+    fn run(&self, idx: u64, st: &mut Stats) -> Result<(), Violation> {
+        let size = MID[idx as usize / 3];
+        let lead_rows = [0usize, 270, 1500][idx as usize % 3];
+        st.nontrivial += 1;
+        st.bump("mid_size_cells");
+        let cols = Arc::new(vec![col("c", ColumnType::MYSQL_TYPE_BLOB, ColumnFlags::empty())]);
+        let mut p = vec![WOp::Start(cols)];
+        for r in 0..lead_rows {
+            p.push(WOp::WriteRow(vec![Val::Bytes(pattern_bytes(100, r))]));
+        }
+        p.push(WOp::WriteRow(vec![Val::Bytes(pattern_bytes(size, 9))]));
+        p.push(WOp::WriteRow(vec![Val::Bytes(vec![b'e'])]));
+        p.push(WOp::Finish);
+        let conv = Conv::new(vec![q(b"x"), ping()]);
+        let s = conv.stream();
+        let stream = Arc::new(s.bytes);
+        let mut sim = sim_for(&stream, vec![]);
+        sim.log_ops = false;
+        let prog = Arc::new(p);
+        let o = run_conn(sim, ConnCfg::new(Box::new(move |_, cb| match cb {
+            Cb::Query(_) => Behavior::Prog(prog.clone()),
+            _ => Behavior::Silent,
+        })));
+        st.transitions += o.sim.n_writes as u64;
+        if !o.res.is_ok() {
+            return Err(Violation::new("result-not-ok", format!("run_on returned {}", o.res.short())));
+        }
+        split_packets(&o.sim.out).map_err(|e| Violation::new("ill-framed", e))?;
+        let d = decode_all(&o.sim.out, &conv, &s.last_seq, 2, false).map_err(|e| Violation::new("reply-decode", format!("{} rows of 100 bytes then a cell of {} bytes: {}", lead_rows, size, e)))?;
+        match &d.replies[0][..] {
+            [Unit::ResultSet { rows, .. }] if rows.len() == lead_rows + 2 => {
+                for r in 0..lead_rows {
+                    if rows[r][0] != Cell::Text(pattern_bytes(100, r)) {
+                        return Err(Violation::new("value-differs", format!("row {} of the {} small rows arrives changed", r, lead_rows)));
+                    }
+                }
+                if rows[lead_rows][0] != Cell::Text(pattern_bytes(size, 9)) {
+                    return Err(Violation::new("value-differs", format!("cell of {} bytes after {} small rows arrives changed", size, lead_rows)));
+                }
+            }
+            _ => return Err(Violation::new("reply-shape", format!("{} rows expected", lead_rows + 2))),
+        }
+        Ok(())
+    }
+    fn describe(&self, idx: u64) -> J {
+        let lead = [0usize, 270, 1500][idx as usize % 3];
+        json!({"cell_bytes": MID[idx as usize / 3], "preceded_by_rows_of_100_bytes": lead})
+    }
+}
+
 pub fn build(quick: bool) -> Check {
     let cs = cases(quick);
     let n = cs.len();
     Check {
         id: "C04",
         level: "model_checking",
-        rule: format!("{} large-message scenarios on the real run_on: logical messages of k*(2^24-1)+d bytes (k in {{1{}}}, d in [-6,6]) as a one-cell text row and as a binary row; two-cell rows with the packet limit falling -1..4 bytes into the second cell (inside its 3-byte length prefix, exactly between the cells, in its data); a one-byte cell straddling the limit; three cells each far below the limit; ERR messages and a column name beyond 2^24 bytes; each under whole, 1 MiB and 65537-byte transport writes, followed by a small row and a sentinel PING. Plus every cell length 0..70000. Oracle: every header length equals the bytes that follow; the message is cut into floor(L/(2^24-1)) maximal packets plus one shorter (possibly empty) packet; consecutive sequence ids; strict decode returns exactly the bytes written. Non-trivial = message of at least 2^24-1 bytes.", n, ",2"),
+        rule: format!("{} large-message scenarios on the real run_on: logical messages of k*(2^24-1)+d bytes (k in {{1{}}}, d in [-6,6]) as a one-cell text row and as a binary row; two-cell rows with the packet limit falling -1..4 bytes into the second cell (inside its 3-byte length prefix, exactly between the cells, in its data); a one-byte cell straddling the limit; three cells each far below the limit; ERR messages and a column name beyond 2^24 bytes; each under whole, 1 MiB and 65537-byte transport writes, followed by a small row and a sentinel PING. Plus every cell length 0..70000, and cells of 2^15..2^20+1 bytes alone and after 270 / 1500 small rows. Oracle: every header length equals the bytes that follow; the message is cut into floor(L/(2^24-1)) maximal packets plus one shorter (possibly empty) packet; consecutive sequence ids; strict decode returns exactly the bytes written. Non-trivial = message of at least 2^24-1 bytes.", n, ",2"),
         assumptions: vec!["message sizes are explored in a window around the packet limit, not exhaustively between 70000 and 2^24-7".into()],
         bounds: json!({"k": 2, "d_window": 6, "scenarios": n}),
         exhaustive: true,
         caps_hit: vec![],
-        families: vec![Box::new(Big { cases: cs }), Box::new(Small)],
-        required: vec!["multi_packet_messages", "empty_closing_packets"],
+        families: vec![Box::new(Big { cases: cs }), Box::new(Small), Box::new(MidSizes)],
+        required: vec!["multi_packet_messages", "empty_closing_packets", "mid_size_cells"],
     }
 }
